@@ -327,6 +327,7 @@ def strategy_dataset(tier):
         "shuffle": st.sampled_from([0, 0, 1, 3, 10]),
         "fp": st.integers(1, 5),
         "fp_none": st.integers(0, 4).map(lambda x: x == 0),
+        "finite": st.integers(0, 2).map(lambda x: x == 0),
         "k": st.integers(1, 12),
     })
 
@@ -366,6 +367,13 @@ def run_dataset(case, ctx):
         dsops.filler_session(ds, desc, [["train", list(range(s * eps)), None]])
         k, shuffle, fp = case["k"], case["shuffle"], case["fp"]
         opts = {"shuffle": shuffle}  # repeat=True is the default
+        if case.get("finite") and not case.get("fp_none"):
+            # a finite stream much longer than what is taken: the bound is
+            # the same (the statement quantifies over finite streams of any
+            # size as well as infinite ones)
+            opts["repeat"] = False
+            k = min(case["k"], max(1, (s - 1) * eps))
+            case = dict(case, k=k)
         if case.get("shards_k"):
             opts["shards"] = case["shards_k"]
         if dsops.iface_accepts(iface, "file_parallelism"):
